@@ -20,6 +20,7 @@ SweepCons == {"if", "dol", "where", "forall"}
 SimCons == ExecCons
 Set123 == {1, 2, 3}
 SubOnly == {"sub"}
+SimpleOneSim == SimpleOne \ SimpleSolo
 OneUnits == {"prog", "sub", "fun", "mod", "bdata"}
 OneCons == {"if", "do", "dol", "selcase", "where"}
 Spec == GSpec
